@@ -107,6 +107,61 @@ Theorem C14_table_leaf_page : forall hdr starts rest cells u,
 Proof. exact table_leaf_page. Qed.
 Print Assumptions C14_table_leaf_page.
 
+(* ... and so do the other three page kinds, and page 1 (sqlite_master's root), whose b-tree header
+   follows the 100-byte file header while its cell offsets count from the start of the page *)
+Theorem C14_index_leaf_page : forall hdr starts rest cells u,
+  len hdr = 8 -> index hdr 0 = Ok 10 -> slice hdr 3 5 = Ok (be_enc 2 (Z.of_nat (length starts))) ->
+  Z.of_nat (length starts) < 65536 ->
+  let b := hdr ++ enc_ptrs starts ++ rest in
+  Forall (fun s => 0 <= s < 65536 /\ s <= len b) starts ->
+  Forall2 (fun s c => 0 <= s <= len b /\ parse_index_leaf (drop s b) u = Ok c) starts cells ->
+  parse_page b false u = Ok (ILeaf cells).
+Proof. exact index_leaf_page. Qed.
+Print Assumptions C14_index_leaf_page.
+
+Theorem C14_table_interior_page : forall hdr starts rest cells rm,
+  len hdr = 12 -> index hdr 0 = Ok 5 -> slice hdr 3 5 = Ok (be_enc 2 (Z.of_nat (length starts))) ->
+  slice hdr 8 12 = Ok (be_enc 4 rm) -> 0 <= rm < 2 ^ 32 ->
+  Z.of_nat (length starts) < 65536 ->
+  let b := hdr ++ enc_ptrs starts ++ rest in
+  Forall (fun s => 0 <= s < 65536 /\ s <= len b) starts ->
+  Forall2 (fun s c => 0 <= s <= len b /\ parse_table_interior (drop s b) = Ok c) starts cells ->
+  forall u, parse_page b false u = Ok (TInterior cells rm).
+Proof. exact table_interior_page. Qed.
+Print Assumptions C14_table_interior_page.
+
+Theorem C14_index_interior_page : forall hdr starts rest cells rm u,
+  len hdr = 12 -> index hdr 0 = Ok 2 -> slice hdr 3 5 = Ok (be_enc 2 (Z.of_nat (length starts))) ->
+  slice hdr 8 12 = Ok (be_enc 4 rm) -> 0 <= rm < 2 ^ 32 ->
+  Z.of_nat (length starts) < 65536 ->
+  let b := hdr ++ enc_ptrs starts ++ rest in
+  Forall (fun s => 0 <= s < 65536 /\ s <= len b) starts ->
+  Forall2 (fun s c => 0 <= s <= len b /\ parse_index_interior (drop s b) u = Ok c) starts cells ->
+  parse_page b false u = Ok (IInterior cells rm).
+Proof. exact index_interior_page. Qed.
+Print Assumptions C14_index_interior_page.
+
+Theorem C14_first_page_table_leaf : forall fh hdr starts rest cells u,
+  len fh = 100 -> len hdr = 8 -> index hdr 0 = Ok 13 -> slice hdr 3 5 = Ok (be_enc 2 (Z.of_nat (length starts))) ->
+  Z.of_nat (length starts) < 65536 ->
+  let b := fh ++ hdr ++ enc_ptrs starts ++ rest in
+  Forall (fun s => 0 <= s < 65536 /\ s <= len b) starts ->
+  Forall2 (fun s c => 0 <= s <= len b /\ parse_table_leaf (drop s b) u = Ok c) starts cells ->
+  parse_page b true u = Ok (TLeaf cells).
+Proof. exact first_page_table_leaf. Qed.
+Print Assumptions C14_first_page_table_leaf.
+
+Theorem C14_first_page_table_interior : forall fh hdr starts rest cells rm,
+  len fh = 100 -> len hdr = 12 -> index hdr 0 = Ok 5 -> slice hdr 3 5 = Ok (be_enc 2 (Z.of_nat (length starts))) ->
+  slice hdr 8 12 = Ok (be_enc 4 rm) -> 0 <= rm < 2 ^ 32 ->
+  Z.of_nat (length starts) < 65536 ->
+  let b := fh ++ hdr ++ enc_ptrs starts ++ rest in
+  Forall (fun s => 0 <= s < 65536 /\ s <= len b) starts ->
+  Forall2 (fun s c => 0 <= s <= len b /\ parse_table_interior (drop s b) = Ok c) starts cells ->
+  forall u, parse_page b true u = Ok (TInterior cells rm).
+Proof. exact first_page_table_interior. Qed.
+Print Assumptions C14_first_page_table_interior.
+
 (* the model's local-payload arithmetic IS the source's: Gen/Arith.v is translated from
    db/btree.go on every build (calculateCellInPageBytes and the threshold arguments of the three
    payload-carrying cell parsers, with Go's truncated / and %); for every page size from 12 up,
